@@ -5,7 +5,7 @@ PROP = {
              {"tag": "c05rel", "bin": "c05", "profile": "release", "tiers": ["thorough"], "mismatch_is_failing": False},
              # an element destructor that panics INSIDE the caller's closure of map/zip/fold and of the
              # iterator's fold/rfold: the intermediate consumer/builder/iterator is torn down by unwinding
-             {"tag": "c05forms", "bin": "c04", "args": ["--mode", "1"], "num": 4, "mismatch_is_failing": False,
+             {"tag": "c05forms", "bin": "c04", "features": ["forms"], "args": ["--mode", "1"], "num": 4, "mismatch_is_failing": False,
               "failing_oracle": r"released twice|released \d+ times|unknown identity|panicked without"},
              # the same histories with every iterator method run through the program REGENERATED from
              # src/iter.rs (MuRust interpreter, GenRun.v): the translated source itself is executed
